@@ -377,6 +377,18 @@ def report(a, P, props, results, bounded, known, seed, t0, world):
         crashes.append(f'only {n_obl} obligations generated, committed minimum is {min_obl} (vacuity guard)')
     exit_code = 0
     vio_lines = []
+    # one line per violated clause: a reproduced witness first, then the first path that fails
+    violations.sort(key=lambda v: (not v.get('reproduced'),))
+    seen_clause = set()
+    deduped = []
+    for v in violations:
+        cid_ = clause_id(v['obligation'])
+        if cid_ in seen_clause:
+            continue
+        seen_clause.add(cid_)
+        deduped.append(v)
+    n_paths_violating = len(violations)
+    violations = deduped
     for v in violations:
         name = hashlib.sha1((v['obligation'] + str(v.get('path'))).encode()).hexdigest()[:10]
         rpath = os.path.join(VERIF, 'replays', f'{prop}-{name}.json')
